@@ -35,6 +35,10 @@ def _kws(call, builder, env, skip=()):
     return tuple(sorted(out, key=lambda x: x[0]))
 
 
+def pq_is_match(e):
+    return isinstance(e, tuple) and len(e) >= 3 and e[0] == 'call' and e[1] in ('.search', '.match', '.fullmatch') and e[2] and e[2][0] == ('sym', 're')
+
+
 class PB(ExprBuilder):
     """permissive builder: every expression gets an Expr; unknown constructs become uninterpreted atoms"""
 
@@ -83,7 +87,19 @@ class PB(ExprBuilder):
             op = type(e.ops[0]).__name__.lower()
             neg = op in ("notin", "isnot")
             r = ('call', 'in' if "in" in op else 'is', (a, b))
+            # `m is None` for a match object m = re.search(..) is `not m`
+            if r[1] == 'is' and b == ('sym', 'None') and pq_is_match(a):
+                return a if neg else ('not', a)
+            # "lit" in s  (lit free of regex metacharacters)  is  re.search("lit", s)
+            if r[1] == 'in' and a[0] == 'sym' and a[1].startswith(("'", '"')) and not any(ch in a[1][1:-1] for ch in r".^$*+?{}[]\\|()") and len(a[1]) > 2:
+                m = ('call', '.search', (('sym', 're'), a, b))
+                return ('not', m) if neg else m
             return ('not', r) if neg else r
+        if isinstance(e, ast.BinOp) and isinstance(e.op, ast.Add):
+            a, b = self.build(e.left, env), self.build(e.right, env)
+            if isinstance(a, tuple) and isinstance(b, tuple) and a and b and a[0] == 'tuple' and b[0] == 'tuple':
+                return ('tuple', a[1] + b[1])
+            return ('add', a, b)
         if isinstance(e, ast.BinOp) and isinstance(e.op, (ast.FloorDiv, ast.Mod)):
             a, b = self.build(e.left, env), self.build(e.right, env)
             return ('call', 'floordiv' if isinstance(e.op, ast.FloorDiv) else 'mod', (a, b))
@@ -182,6 +198,8 @@ class PB(ExprBuilder):
                 return r
         if d in ("len",) and len(args) == 1:
             return ('call', 'shape', (args[0], num(0)))
+        if d == "bool" and len(args) == 1:
+            return args[0]            # truth value of its argument
         if d in ("abs", "float", "int", "bool", "min", "max", "sum", "round", "range", "list", "tuple", "sorted", "str", "isinstance", "zip", "enumerate", "dict", "set"):
             if d in ("float", "int") and len(args) == 1:
                 return args[0]
@@ -413,6 +431,14 @@ class PEval:
                         if m == "fill" and len(s.value.args) == 1:
                             c = self.ex(s.value.args[0], env)
                             env[r] = ('call', 'filled', (env.get(r, ('sym', r)), c))
+                        elif m == "append" and len(s.value.args) == 1 and isinstance(env.get(r), tuple) and env[r][0] == 'tuple':
+                            env[r] = ('tuple', env[r][1] + (self.ex(s.value.args[0], env),))
+                        elif m == "extend" and len(s.value.args) == 1 and isinstance(env.get(r), tuple) and env[r][0] == 'tuple':
+                            a_ = self.ex(s.value.args[0], env)
+                            if isinstance(a_, tuple) and a_[0] == 'tuple':
+                                env[r] = ('tuple', env[r][1] + a_[1])
+                            else:
+                                env[r] = ('tuple', env[r][1] + (('call', 'seg', (a_,)),))
                         elif m in ("sort", "append", "extend", "update", "pop", "remove", "insert", "clear"):
                             env[r] = ('call', 'mutated:' + m, (env.get(r, ('sym', r)), v))
                 continue
@@ -495,11 +521,25 @@ class PEval:
                     seen.add(id(e))
                     effects.append(e)
         self.loop_paths = getattr(self, "loop_paths", []) + [(tag, p) for p in sub.paths]
+        appended = {}
+        for p in sub.paths:
+            for e in p.effects:
+                if e.kind == 'call' and e.target.endswith(".append") and e.target.count(".") == 1 and pq_call(e.val, ".append"):
+                    appended.setdefault(e.target.split(".")[0], [])
+                    a_ = e.val[2][1]
+                    if not any(a_ == x for x in appended[e.target.split(".")[0]]):
+                        appended[e.target.split(".")[0]].append(a_)
         for k in list(env):
             if k.split(".")[0] in stored:
                 env[k] = ('sym', f"{k}'{s.lineno}")
         for k in stored:
             env.setdefault(k, ('sym', f"{k}'{s.lineno}"))
+        # a list that the loop only appends to keeps what it held before, followed by a segment of the appended items
+        assigned = {n.id for n in ast.walk(s) if isinstance(n, ast.Name) and isinstance(n.ctx, ast.Store)}
+        for nm, items in appended.items():
+            old = sub_env.get(nm)
+            if nm not in assigned and isinstance(old, tuple) and old and old[0] == 'tuple':
+                env[nm] = ('tuple', old[1] + (('call', 'seg', tuple(items)),))
 
 
 # ------------------------------------------------------------------------------------------------------ comparison
@@ -719,6 +759,10 @@ def find(e, pred, acc=None):
                         if isinstance(x, tuple):
                             find(x, pred, acc)
     return acc
+
+
+def pq_call(e, name):
+    return isinstance(e, tuple) and len(e) >= 3 and e[0] == 'call' and e[1] == name
 
 
 def call_named(e, name):
